@@ -204,7 +204,7 @@ static std::string check_xoflike(const KV &c, int iface) {
     size_t pos = 0, idx = 0;
     if (absorbs) {
         for (uint64_t ch : in_chunks) {
-            if (a.can_copy() && idx == copy_at && !have_copy) { b.copy_from(a); have_copy = true; }
+            if (a.can_copy() && idx == copy_at && !have_copy) { a.copy_from(a); b.copy_from(a); have_copy = true; }   // a copy onto itself first: must change nothing
             if (idx == pad_at) { a.pad(); if (have_copy) b.pad(); }
             Bytes piece = slice(data, pos, ch);
             a.absorb(piece);
